@@ -144,3 +144,11 @@ PROPS.update({
 # columns and long lines (template), and whole Stream() runs (stream)
 PROPS["C01"]["streams"] = [{"name": "json"}, {"name": "template"}, {"name": "stream"}]
 PROPS["C01"]["rule"] = PROPS["C01"]["rule"] + " ++ " + TEMPLATE_RULE + " ++ the stream stream of C07/C08 (every Write recorded separately)"
+
+PROPS.update({
+    "C19": {"streams": [{"name": "jl"}],
+            "rule": "jl stream: the jl binary is built from /repo's working tree (go build ./cmd/jl) and run in a scratch directory; column lists of 1-4 columns (descriptors 'format', 'format(type)' over 9 formats x 19 type names, unknown names and malformed descriptors, input and output sides different in 2/3 of the columns, sub-rows to depth 2) rendered as row.yml and as the inline -t template; 1-5 input lines of C07's kinds; three runs per case (row.yml only; -t without file; -t with an unrelated row.yml present) compared with each other, with the library streamer on the equivalent templates, and — the file run and the inline run — with the model of cmd/jl; every sixth case also a malformed inline template and a malformed row.yml (exit status non-zero, empty stdout); a case is distinct by (columns, input)",
+            "trusted_base": TB_TEMPLATE + ["hand model JL.model.Jl of cmd/jl/definition.go and of createTemplate / run in root.go; the regexp of parseDescriptor is a hand-written matcher; the two registries are copied by hand (tied by the jl stream: every format and type name occurs in generated descriptors)",
+                                           "yaml.v3, cobra/viper flag handling, zerolog and the process exit path are not modelled: exercised on the real binary only"],
+            "assumptions": ["equivalence of the file and inline forms is judged on descriptors without ':' (an inline value is split at its first ':')"]},
+})
